@@ -405,6 +405,8 @@ def _case_opt(p, ctx, cp, algo, cap, h, settings, use_db, n_iter, coefficient_so
     second = p.get("second")
     if second is not None and cap["global"] and p["problem"]["cons"] and ctx.known(K_GLOBAL_LISTENER):
         second = None
+    if second is not None and cp.get(second["algo"], {}).get("linear_only") and p["problem"]["cons"] and not p["problem"]["feasible_x0"]:
+        second = None  # possibly infeasible LP: outside the property (hand-written or shrunk payloads only)
     if second is not None and second["algo"] in cp and not problem_matches(cp[second["algo"]], p["problem"]):
         algo2, n2, reset = second["algo"], int(second["max_iter"]), bool(second["reset"])
         cap2 = cp[algo2]
